@@ -11,3 +11,5 @@ import WmModel.Props.C10SelfClose
 #print axioms Wm.RouterLife.self_close_progress
 #print axioms Wm.RouterLife.run_returned_means_closed
 #print axioms Wm.RouterLife.cancel_winds_handlers_down
+#print axioms Wm.RouterLife.runhandlers_nil_means_all_started
+#print axioms Wm.RouterLife.runhandlers_error_is_retried
